@@ -8,6 +8,8 @@ NOTE = ("Trusted: z3 5.1 / cvc5 1.0.3 verdicts; the pyvc executor's encoding of 
         "bs4/lxml/cssutils; floats under the standard error model (binary64, round-to-nearest, no overflow); "
         "the bounded parts are run-time contract evaluation, never counted as proof. See evidence/<id>.json.")
 CLAIMED = {
+ "C08": ("lemmas over the proved C01/C02 time contracts discharged by the SMT solver + bounded run-time contracts on conversion chains through the real readers and writers",
+         "P: resolution lemmas (one hop truncates to the format resolution, hops are idempotent, mixed ms/frame chains settle after one pass, frame numbers round-trip); B: caption sets through every single format, all 5x5 pairs and seeded chains of length 3-5, two passes: same cues, normalised text, times at the coarsest resolution, second pass changes nothing", "3 C08"),
  "C14": ("contract-based deductive verification of the language-selection helpers + bounded run-time contracts on multi-language sets through reference parsers and the real readers",
          "P: get_languages is insertion order, legacy force= selection, SAMI paragraph language resolution; B: 1-4 languages with interleaved / coinciding / disjoint / earlier / empty-first cue times: SAMI SYNC blocks non-decreasing with each paragraph under its class in the block of its start, DFXP one div per language in order, both read back equal; force= / lang= select the named language; xml:lang fallbacks; SAMI order of first appearance", "3 C14"),
  "C11": ("ground evaluation of the style mappings + contract-based deductive verification with loop invariants (span balance of the DFXP writers, alternation pass of the SCC reader) + bounded round trips through the real parsers",
